@@ -769,6 +769,12 @@ def entry_points(rs, variant=0, fam='generic'):
     add('periodogram_csd', alg.periodogram_csd, X)
     add('periodogram_csd/3d', alg.periodogram_csd, A(2, 2, N))
     add('periodogram_csd/1d', alg.periodogram_csd, x)
+    # long records (2^14 and one above it): buffer-reuse / in-place fast paths are tempted exactly where copies get expensive
+    # (wave 10, C16-20); the argument must come back unchanged there too
+    add('periodogram_csd/long', alg.periodogram_csd, A(2, 16384))
+    add('periodogram_csd/long-odd', alg.periodogram_csd, A(2, 16385))
+    add('periodogram/long', alg.periodogram, A(2, 16384))
+    add('tapered_spectra/NW-long', alg.tapered_spectra, A(2, 16384), (4, 3))
     # optional precomputed arguments (transforms, autocorrelations, tapered spectra) are inputs like any other:
     SkX = derived(lambda: np.fft.fft(np.asarray(X)), lambda: np.fft.fft(rs.randn(C, N)))
     add('periodogram/Sk', alg.periodogram, X, Sk=SkX.copy())
